@@ -44,6 +44,11 @@
 (*     modelled; the back-off counters are.                                *)
 (*   - io.ReadFull is one step (short reads of the source are exercised by *)
 (*     the harness only).                                                  *)
+(*   - redirects (307 / 308) of session requests are followed by net/http  *)
+(*     below reghttp; here a URL is an opaque token.  Which URL the next   *)
+(*     request goes to (redirects x reference forms of the Location) is    *)
+(*     specified in BlobPutLoc.tla; the harness runs every BlobPut         *)
+(*     behaviour with and without redirects.                               *)
 (*   - read errors of the source and context cancellation are not          *)
 (*     modelled.                                                           *)
 (*   - bufChange / bufRdr (re-creation of the bytes.Reader) is not         *)
